@@ -87,11 +87,13 @@ int sim_fd_class(int fd);
 
 /* ---------- allocator ---------- */
 long sim_alloc_count(void);
+void sim_alloc_fail_set(long k);   /* k-th allocation (absolute ordinal) fails; 0 = never */
 
 /* ---------- misc knobs (set by plan, readable by scenarios) ---------- */
 extern int sim_hashbits;      /* 0 = full 32 bit */
 extern int sim_store_mode;    /* compressor proxy returns 0 ("does not compress") */
 extern long sim_cmpfail_at;   /* k-th compress call fails; 0 = never */
+long sim_cmp_calls(void);  /* compressor proxy calls so far */
 extern int sim_pool_serial;   /* thread_pool_create -> serial implementation */
 extern int sim_ncpu;          /* 0 = real */
 
